@@ -156,3 +156,26 @@ check(
     'Dynamics per reset function = chain and termination of the shipped configuration using it; <=2 obstacles.',
     'DESIGN.md 3/C14',
 )
+check(
+    'C15',
+    'bounded exhaustive enumeration of spaces x members x representations with containment oracle; BFS over shipped configurations converting every reachable state/observation',
+    'For type subsets (sizes 1-3, the shipped sets, all 9; thorough all 511) x colour subsets x grid/view shapes x '
+    '{default, no-overlap, compact} x {state, observation}: every admitted object at every cell, every agent pose and '
+    'every held item is converted; each key must lie in its declared Space (shape, dtype class, bounds) and in the '
+    'gym-layer Dict space; state representations of spaces with Box must raise ValueError; every reachable '
+    'state/observation of the shipped configurations is converted under all representations.',
+    'Grid shapes >= 2x2, view shapes of odd width (quantifier of the property).',
+    'DESIGN.md 3/C15',
+)
+check(
+    'C16',
+    'bounded exhaustive enumeration of members with a per-object code table, positional comparison and exhaustive pairwise injectivity by bucketing on the byte image',
+    'For each space and encoding the per-object code table is extracted and checked (default = index triple; '
+    'no-overlap channels pairwise disjoint; compact consecutive from zero; distinct objects have distinct codes); for '
+    'every member (every object at every cell, every pose, held items, and all members with 2 non-default cells on '
+    'selected shapes) each grid entry equals the code of the object in that cell, the agent marker is one-hot at the '
+    'agent cell, the item channel is the held object code; two members share a representation iff they are equal, '
+    'copies equal and hash alike.',
+    'Injectivity decided by a 128-bit digest of the byte image over the enumerated universe.',
+    'DESIGN.md 3/C16',
+)
